@@ -235,10 +235,10 @@ impl ArgVec {
         ArgVec { arr: ManuallyDrop::new(a), len }
     }
     pub fn with<R>(&mut self, f: impl FnOnce(&Vec<InstructionOps>) -> R) -> R {
-        let v = unsafe { Vec::from_raw_parts(self.arr.as_mut_ptr(), self.len, 3) };
-        let r = f(&v);
-        core::mem::forget(v);
-        r
+        // ManuallyDrop: the lent Vec must not be freed even if the code under test panics
+        // and unwinds through this frame (native replay)
+        let v = ManuallyDrop::new(unsafe { Vec::from_raw_parts(self.arr.as_mut_ptr(), self.len, 3) });
+        f(&v)
     }
 }
 
